@@ -476,6 +476,61 @@ func c05ConfigEnum(thorough bool) mc.Enum {
 			}})
 		}
 	}
+	// a prover struck off by a passed report (or refreshed by a passed attestation) while its file is young or old, then
+	// reward blocks
+	for _, kind := range []string{"report", "attest", "both"} {
+		for delay := 0; delay <= 3; delay++ {
+			kind, delay := kind, delay
+			e.Cases = append(e.Cases, mc.Case{Desc: fmt.Sprintf("forms|%s|after %d blocks", kind, delay), Run: func(env world.Env) mc.CaseResult {
+				w := env.W()
+				u := w.A("U").Bech
+				cr := mc.CaseResult{Class: "no-panic", Nontrivial: true}
+				h := env.Ctx().BlockHeight()
+				msg := storagetypes.NewMsgPostFile(u, files[0].merkle, 12, 0, 0, 3, "{}")
+				msg.Expires = h + 20_000
+				mustOK(env.Deliver(msg), "PostFile")
+				for _, pv := range c05Provers {
+					item, hl := files[0].proofFor(0)
+					env.Deliver(storagetypes.NewMsgPostProof(w.A(pv).Bech, files[0].merkle, u, h, item, hl, 0))
+				}
+				blocks := 0
+				next := func() bool {
+					blocks++
+					if bp := env.NextBlock(day); bp != nil {
+						cr.Class = "panic"
+						cr.Viols = append(cr.Viols, viol("block-processing-never-panics", panicSig(bp), "forms %s after %d blocks: %s of height %d panicked: %s", kind, delay, bp.Phase, bp.Height, bp.Value))
+						return false
+					}
+					return true
+				}
+				for i := 0; i < delay; i++ {
+					if !next() {
+						return cr
+					}
+				}
+				p1 := w.A("P1").Bech
+				if kind != "attest" {
+					env.Deliver(storagetypes.NewMsgRequestReportForm(u, p1, files[0].merkle, u, h))
+					for _, pv := range []string{"P2", "P3"} {
+						env.Deliver(storagetypes.NewMsgReport(w.A(pv).Bech, p1, files[0].merkle, u, h))
+					}
+				}
+				if kind != "report" {
+					p2 := w.A("P2").Bech
+					env.Deliver(storagetypes.NewMsgRequestAttestationForm(p2, files[0].merkle, u, h))
+					for _, pv := range []string{"P1", "P3"} {
+						env.Deliver(storagetypes.NewMsgAttest(w.A(pv).Bech, p2, files[0].merkle, u, h))
+					}
+				}
+				for blocks < 9 {
+					if !next() {
+						return cr
+					}
+				}
+				return cr
+			}})
+		}
+	}
 	// several identical purchases in one block (their gauges share one identity), then reward blocks
 	for n := 2; n <= 4; n++ {
 		for _, pr := range [][2]int64{{30, 1_000_000_000}, {365, 5_000_000_000_000}} {
@@ -509,7 +564,7 @@ func init() {
 	prev := Props["C05"].Run
 	Props["C05"] = Prop{Level: "model_checking", Run: func(r *mc.Run, tier string) {
 		prev(r, tier)
-		r.Rules = append(r.Rules, "plus an exhaustive enumeration of reward-block configurations: up to 3 (thorough 4) files, each with FileSize in {1,1000,2^62,2^63-1}, one or two provers, pay-once or plan-paid, posted and proven through real messages, followed by eight one-day blocks (past the first removal of lapsed provers); 13 provider addresses that the message accepts although they are no ordinary URL (no scheme, no host, trailing dot, IPv6, opaque), set by SetProviderIP or a fresh InitProvider, with that provider lapsing on a file and named on forms; and 2-4 identical purchases in one block followed by eight one-day blocks")
+		r.Rules = append(r.Rules, "plus an exhaustive enumeration of reward-block configurations: up to 3 (thorough 4) files, each with FileSize in {1,1000,2^62,2^63-1}, one or two provers, pay-once or plan-paid, posted and proven through real messages, followed by eight one-day blocks (past the first removal of lapsed provers); 13 provider addresses that the message accepts although they are no ordinary URL (no scheme, no host, trailing dot, IPv6, opaque), set by SetProviderIP or a fresh InitProvider, with that provider lapsing on a file and named on forms; a prover struck off by a passed report / refreshed by a passed attestation 0-3 blocks after it joined; and 2-4 identical purchases in one block followed by eight one-day blocks")
 		dl := time.Now().Add(40 * time.Second)
 		if tier == "thorough" {
 			dl = time.Now().Add(15 * time.Minute)
